@@ -129,6 +129,29 @@ def json_number_lemmas(prop):
                  trusted=["PyYAML resolves a plain scalar by the first matching resolver of its first character", "regex -> RegLan translation (pyvc/regex.py)"])
 
 
+def python_number_text_lemmas(prop):
+    """What a user types for a number is what Python prints for it: every text of repr(int) and repr(float) (finite) - also the exponent
+    forms without a decimal point that repr produces for small and large floats, `1e-05`, `2e+16` - is resolved by the real loader table
+    as int resp. float, so that a float-typed parameter receives a float."""
+    def build():
+        t = resolver_tables()
+        s = z3.String("s")
+        digit, nz = z3.Range("0", "9"), z3.Range("1", "9")
+        sign = z3.Option(z3.Re("-"))
+        integer = z3.Concat(sign, z3.Union(z3.Re("0"), z3.Concat(nz, z3.Star(digit))))
+        fixed = z3.Concat(integer, z3.Re("."), z3.Plus(digit))  # repr(float) without exponent always has a fraction: 1.0, -0.5, 123456.789
+        exponent = z3.Concat(z3.Re("e"), z3.Union(z3.Re("+"), z3.Re("-")), digit, z3.Plus(digit))  # repr pads the exponent to two digits: e-05, e+16, e-100
+        sci = z3.Concat(sign, digit, z3.Option(z3.Concat(z3.Re("."), z3.Plus(digit))), exponent)  # 1e-05, 2.5e-05, 1.7976931348623157e+308
+        return [
+            make_ob(f"{prop}/lemma:python-number-texts/repr(int)-is-read-as-int", "lemma", [z3.InRe(s, integer)], first_match_is(t["loader"], s, "int"), watch={"s": s}, timeout_s=60),
+            make_ob(f"{prop}/lemma:python-number-texts/repr(float)-in-fixed-notation-is-read-as-float", "lemma", [z3.InRe(s, fixed)], first_match_is(t["loader"], s, "float"), watch={"s": s}, timeout_s=60),
+            make_ob(f"{prop}/lemma:python-number-texts/repr(float)-in-exponent-notation(with or without a decimal point)-is-read-as-float", "lemma", [z3.InRe(s, sci)], first_match_is(t["loader"], s, "float"), watch={"s": s}, timeout_s=60),
+        ]
+    return Lemma(f"{prop}/lemma:python-number-texts-are-read-as-numbers", build, replayer="replayers.c01:replay_python_number",
+                 trusted=["PyYAML resolves a plain scalar by the first matching resolver of its first character", "regex -> RegLan translation (pyvc/regex.py)",
+                          "repr(int) / repr(float) produce the stated regular languages (CPython float_repr_style 'short')"])
+
+
 # ------------------------------------------------------------------------------------- load_basic
 NOT_LOADED = Rec("not_loaded-sentinel")
 is_int_text = z3.Function("int(str).ok", S, z3.BoolSort())
